@@ -34,7 +34,7 @@ def run(tier, seed):
     sw = os.path.join(chk.workdir, "sw")
     from concurrent.futures import ThreadPoolExecutor
     rel = vlib.build_harness("release")
-    nedge, nsamp = (60000, 30000) if tier == "quick" else (1500000, 150000)
+    nedge, nsamp = (60000, 60000) if tier == "quick" else (1500000, 1500000)
     with ThreadPoolExecutor(max_workers=3) as ex:
         list(ex.map(lambda s: vlib.drive(rel, "sweeps", sets=s, seed=seed, nkeys=0, nedge=nedge, nedgefull=1 if tier == "quick" else 4,
                                          nsamplers=nsamp, nrare=1 if tier == "quick" else 4, out=sw, timeout=7200), (44, 65, 87)))
